@@ -82,6 +82,7 @@ static inline carquet_schema_t* build_schema(const Table& t, carquet_status_t* s
 
 // An invalid writer call slipped into the history before writer call #g_bad_call_at (-1: none). It is not one of the plan's calls:
 // kind 0: column index -1, 1: column index == number of columns. Its status lands in g_bad_call_status.
+// kind 2: no extra call - instead the plan's write_batch #g_bad_call_at (if it has rows) is left out, so that the columns of that row group end up with different lengths.
 inline int g_bad_call_at = -1, g_bad_call_kind = 0; inline carquet_status_t g_bad_call_status = CARQUET_OK; inline bool g_bad_call_made = false;
 
 // abort_after >= 0: call carquet_writer_abort after that many writer calls (instead of continuing)
@@ -129,7 +130,9 @@ static inline WriteOutcome run_writer(const gen::WritePlan& p, const std::string
             auto pk = pack_values(c, ch.vals, v0, v1);
             std::unique_ptr<int16_t[]> defs;
             if (b.pass_def) { defs.reset(new int16_t[b.count ? b.count : 1]); for (int64_t i = 0; i < b.count; i++) defs[(size_t)i] = ch.def[(size_t)(b.start + i)]; }
-            if (g_bad_call_at == call && !g_bad_call_made) {
+            if (g_bad_call_at == call && !g_bad_call_made && g_bad_call_kind == 2) {
+                if (b.count > 0) { g_bad_call_made = true; call++; continue; }
+            } else if (g_bad_call_at == call && !g_bad_call_made) {
                 g_bad_call_made = true;
                 int32_t bc = g_bad_call_kind == 0 ? -1 : g_bad_call_kind == 1 ? (int32_t)p.table.cols.size() : b.col;
                 g_bad_call_status = cq::writer_write_batch(w, bc, pk->buf.get(), b.count, defs.get(), nullptr);
